@@ -322,6 +322,12 @@ class UnaryOp(Expression):
             if self._op is self.Operator.ABS:
                 return f"abs({self._arg.write(scope)})"
 
+            if self._op is self.Operator.NEG and isinstance(
+                TypeQualifier.decay(self._arg.result), Unsigned
+            ):
+                # numeric_std declares no unary minus for unsigned
+                return f"(0 - ({self._arg.write(scope)}))"
+
             op = UnaryOp.operator_string[self._op]
             return f"{op}({self._arg.write(scope)})"
 
